@@ -1,3 +1,45 @@
-(* C13: step-level runner; case type and model agreement shared in Corr/Steps.v *)
+(* C13: step-level runner; case type and model agreement shared in Corr/Steps.v, plus the node-markup case *)
+From Coq Require Import List Bool Arith.
 From PM Require Export Model.Step Corr.Steps.
-Definition holds := holds_C13.
+From PM Require Import Model.Data Model.Mark Model.Tree Model.Resolve Spec.Tokens Corr.Common.
+Import ListNotations.
+
+(* Transform.set_node_markup(pos, type, attrs, marks): [given] = the marks argument (None, or a list), [hist] the steps it
+   recorded.  The node's own marks afterwards are the given ones (sorted) when a non-empty list was given, and the marks
+   the node had otherwise - "marks unrelated to the operation are unchanged". *)
+Inductive case :=
+| CStepCase (c : Corr.Steps.case)
+| CMarkup (s : schema) (doc : node) (pos : nat) (given : option (list mark)) (hist : list applied) (final : node).
+Coercion CStepCase : Corr.Steps.case >-> case.
+
+Definition agree (c : case) : bool :=
+  match c with
+  | CStepCase c' => Corr.Steps.agree c'
+  | CMarkup s doc _ _ h final => agree_hist s doc h final
+  end.
+
+Definition holds (c : case) : bool :=
+  match c with
+  | CStepCase c' => holds_C13 c'
+  | CMarkup s doc pos given h final =>
+    match h with
+    | [] => true            (* the operation was refused *)
+    | _ =>
+      match node_at s (S (node_size s doc)) doc pos, node_at s (S (node_size s final)) final pos with
+      | Ok (Some old), Ok (Some new) =>
+        match given with
+        | Some (m :: r) =>
+          (* given marks the parent does not allow are filtered out / refused downstream (C11, C01): judged only when allowed *)
+          match resolve s doc pos with
+          | Ok rp => match rp_parent rp with
+                     | Ok parent => if allows_marks s (node_ty s parent) (m :: r)
+                                    then marks_eqb (node_marks new) (set_from (m :: r)) else true
+                     | Err _ => false end
+          | Err _ => false
+          end
+        | _ => marks_eqb (node_marks new) (node_marks old)
+        end
+      | _, _ => false
+      end
+    end
+  end.
